@@ -70,6 +70,8 @@ type scStatObs struct {
 	Total  int64
 	Times  uint64
 	Err    bool
+	// what LastError says: 0 nothing, 1 the stop-scrape reason, 2 connection failed, 3 HTTP status, 4 body broke off, 5 else
+	ErrKind int
 }
 type scObs struct {
 	Status []scStatObs
@@ -260,6 +262,19 @@ func (w *scWorld) observe(ok bool) scObs {
 	}
 	for h, s := range st {
 		so := scStatObs{Hash: h, Series: s.Series, Total: s.TotalSeries, Times: s.ScrapeTimes, Err: s.LastError != ""}
+		switch {
+		case s.LastError == "":
+		case strings.Contains(s.LastError, "scraping stopped by operator"):
+			so.ErrKind = 1
+		case strings.Contains(s.LastError, "scripted connection failure"):
+			so.ErrKind = 2
+		case strings.Contains(s.LastError, "HTTP status"):
+			so.ErrKind = 3
+		case strings.Contains(s.LastError, "scripted body failure"):
+			so.ErrKind = 4
+		default:
+			so.ErrKind = 5
+		}
 		switch s.TargetState {
 		case target.StateNormal:
 		case target.StateInTransfer:
@@ -443,8 +458,8 @@ func scOpTerm(op scOp) string {
 func scObsTerm(o scObs) string {
 	var st []string
 	for _, s := range o.Status {
-		st = append(st, fmt.Sprintf("{| sb_hash := %s; sb_state := %s; sb_health := %s; sb_series := %s; sb_total := %s; sb_times := %s; sb_err := %s |}",
-			cN(s.Hash), scStateTerm(s.State), []string{"Good", "Bad", "Unknown"}[s.Health], cZ(s.Series), cZ(s.Total), cN(s.Times), cBool(s.Err)))
+		st = append(st, fmt.Sprintf("{| sb_hash := %s; sb_state := %s; sb_health := %s; sb_series := %s; sb_total := %s; sb_times := %s; sb_err := %s; sb_errkind := %s |}",
+			cN(s.Hash), scStateTerm(s.State), []string{"Good", "Bad", "Unknown"}[s.Health], cZ(s.Series), cZ(s.Total), cN(s.Times), cBool(s.Err), cN(uint64(s.ErrKind))))
 	}
 	idle := "None"
 	if o.Idle != nil {
@@ -486,10 +501,16 @@ func sidecarRun(in interface{}) (string, interface{}, map[string]int) {
 	st := map[string]int{"ops": len(c.Ops)}
 	var ops, obs []string
 	obs = append(obs, scObsTerm(seen[0]))
+	var kinds []string
 	emit := func(op scOp, o scObs) {
 		seen = append(seen, o)
 		ops = append(ops, scOpTerm(op))
 		obs = append(obs, scObsTerm(o))
+		k := 0
+		if op.Kind == "scrape" {
+			k = map[string]int{"connfail": 2, "status500": 3, "midbody": 4}[op.Result]
+		}
+		kinds = append(kinds, cN(uint64(k)))
 	}
 	for _, op := range c.Ops {
 		if op.Kind == "scrape" && op.Result == "noclient" {
@@ -545,7 +566,7 @@ func sidecarRun(in interface{}) (string, interface{}, map[string]int) {
 	if len(c.Ops) >= 3 {
 		st["nontrivial"] = 1
 	}
-	term := fmt.Sprintf("{| sk_prom := %s; sk_now0 := %s; sk_ops := %s;\n   sk_seen := %s |}", cZ(c.Prom), cZ(c.Now0), cList(ops), cList(obs))
+	term := fmt.Sprintf("{| sk_prom := %s; sk_now0 := %s; sk_ops := %s;\n   sk_seen := %s;\n   sk_kinds := %s |}", cZ(c.Prom), cZ(c.Now0), cList(ops), cList(obs), cList(kinds))
 	return term, seen, st
 }
 
